@@ -314,6 +314,7 @@ void Dual<N>::run(V& v,
 
     while (!done.load() && !settings.cancel.load())
     {
+        LIBFIVE_VERIF_POINT("dual.loop", &settings);
         // Prioritize picking up a local task before going to
         // the MPMC queue, to keep things in this thread for
         // as long as possible.
@@ -365,6 +366,7 @@ void Dual<N>::run(V& v,
         {
             // Do the actual DC work (specialized for N = 2 or 3)
             Dual<N>::work(t, v);
+            LIBFIVE_VERIF_POINT("dual.work", &settings);
 
             // Report trees as completed
             if (settings.progress_handler) {
